@@ -267,7 +267,7 @@ _BASE120 = VALID[::max(1, len(VALID) // 120)][:120]
 MUT_MNEMONICS = ["LDA", "LDX", "LDY", "STA", "LEAX", "JMP", "CLR", "CMPD", "PSHS", "PULU", "TFR", "ANDCC"]
 
 
-LABEL_OPERANDS = ["ZZEND", "ZZEND+1", "ZZEND-1", "#ZZEND", "<ZZEND", ">ZZEND", "[ZZEND]", "[ZZEND+2]", "ZZEND,X", "[ZZEND,Y]",
+LABEL_OPERANDS = ["ZZEND", "ZZEND+1", "ZZEND-1", "ZZEND+2", "1+ZZEND", "ZZSELF+2", "ZZSELF-1", "ZZEND*2", "ZZEND-ZZSELF", "#ZZEND", "<ZZEND", ">ZZEND", "[ZZEND]", "[ZZEND+2]", "ZZEND,X", "[ZZEND,Y]",
                   "ZZEND,PCR", "[ZZEND,PCR]", "ZZEND+3,PCR", "ZZEND-3,PCR", "ZZSELF", "ZZSELF,PCR", "#ZZSELF"]
 
 
@@ -441,6 +441,17 @@ def execute(case):
     if insn.op != R.canon(mn):
         return viol("{} {}: bytes {} decode as {}".format(mn, text, img.hex(), insn.op), fid=fid + "wrong_op", labels=labels)
     why = check_semantics(mn, text, insn)
+    if not why and insn.nf[0] == "rel":
+        # a branch operand that names the sentinel / the statement's own label, with or without a constant: if the tool
+        # accepts it, the displacement must reach exactly that address (ZZEND is the next statement: d = constant)
+        m = re.match(r"^(ZZEND|ZZSELF)(?:([+-])(\d+))?$", text) or re.match(r"^()(?:()(\d+))\+(ZZEND|ZZSELF)$", text)
+        if m:
+            name = m.group(1) or m.group(4)
+            k = int(m.group(3) or 0) * (-1 if m.group(2) == "-" else 1)
+            want_d = k if name == "ZZEND" else k - insn.length
+            got_d = insn.nf[1]
+            if got_d != want_d:
+                why = "branch displacement {} does not reach {} (expected {})".format(got_d, text, want_d)
     if why:
         return viol("{} {} -> {}: {}".format(mn, text, img.hex(), why), fid=fid + "meaning:" + why[:24], labels=labels)
     return ok(labels=labels, nontrivial=True)
